@@ -32,7 +32,8 @@ def _mk_math():
         counter[0] += 1
         k = counter[0]
         if kind == "leaf":
-            return E.ConstantExpression(k) if k % 2 else E.VariableExpression("xyz"[k % 3])
+            # values repeat on purpose (equal constants / equal variable names at different positions)
+            return E.ConstantExpression([4, 4.0, 2, 4][k % 4]) if k % 2 else E.VariableExpression("xyz"[k % 3])
         if kind == "both":
             return binaries[k % len(binaries)]()
         cls = unaries[k % len(unaries)]
@@ -82,9 +83,12 @@ def check_shape(ctx, case):
         for k in range(1, n + 1):
             calls = []
 
+            # the stop signal is the string value "stop": also return an equal, non-identical copy
+            signal = STOP if (k + len(text)) % 2 == 0 else "".join(["st", "op"])
+
             def cb2(node, depth, data):
                 calls.append((node, depth))
-                return STOP if len(calls) == k else None
+                return signal if len(calls) == k else None
 
             ret = method(cb2)
             ctx.count("traversals")
@@ -131,6 +135,8 @@ def check_shape(ctx, case):
         ctx.count("queries")
 
     if family == "math":
+        from mathy_core import expressions as E
+
         for order in ORDERS:
             lst = root.to_list(order)
             if [id(x) for x in lst] != [id(a) for a, _ in S.naive(root, order)]:
@@ -141,8 +147,18 @@ def check_shape(ctx, case):
                 return ctx.fail(("find_id", "present"), case, {"id": node.id})
         if root.find_id("no-such-id") is not None:
             return ctx.fail(("find_id", "absent"), case, None)
+        # look-ups from an inner receiver agree with that receiver's own traversal
+        for sub in nodes[1:5]:
+            inside = {id(a) for a, _ in S.naive(sub, "inorder")}
+            for node in inorder:
+                got = sub.find_id(node.id)
+                want = node if id(node) in inside else None
+                if got is not want:
+                    return ctx.fail(("find_id", "inner-receiver"), case, {"receiver": sub.id, "id": node.id, "found": getattr(got, "id", None)})
+            for cls in (E.MathExpression, E.ConstantExpression, E.BinaryExpression):
+                if [id(x) for x in sub.find_type(cls)] != [id(a) for a, _ in S.naive(sub, "inorder") if isinstance(a, cls)]:
+                    return ctx.fail(("find_type", "inner-receiver"), case, {"class": cls.__name__})
         classes = {type(x) for x in inorder}
-        from mathy_core import expressions as E
 
         classes |= {E.MathExpression, E.BinaryExpression, E.UnaryExpression, E.FunctionExpression}
         for cls in classes:
